@@ -19,7 +19,11 @@ SPECS = os.path.join(os.path.dirname(CONTRACTS), 'specs')
 
 
 class Undecided(Exception):
-    """tool limit: never reported as a violation"""
+    """tool limit: never reported as a violation (unless a concrete failing input is then found by replay)"""
+
+    def __init__(self, msg, unit=None):
+        Exception.__init__(self, msg)
+        self.unit = unit
 
 
 # --------------------------------------------------------------------------- unit records
@@ -163,6 +167,11 @@ def _t_ret(line, arg=None):
     return '%s(%s: %s)%s' % (m.group(1), arg, ty, m.group(3))
 
 
+def _t_sort(line, arg=None):
+    """`v.sort();` -> `ol_sort(&mut v);` (outlined slice sort with its assumed contract)"""
+    return re.sub(r'^(\s*)(\w+)\.sort\(\);\s*$', r'\1ol_sort(&mut \2);', line)
+
+
 R7_RE = re.compile(r'^(\s*)for (\w+) in \[(.*)\] \{\s*$')
 R7_OUT = re.compile(r'^let verif_(\w+) = \[(.*)\]; for verif_i_\w+ in 0\.\.verif_\w+\.len\(\)$')
 
@@ -177,7 +186,7 @@ def _t_r7(line, arg=None):
     return '%slet verif_%s = [%s]; for verif_i_%s in 0..verif_%s.len()' % (ind, x, lst, x, x)
 
 
-TRANSFORMERS = [('R7', _t_r7), ('R1', _t_r1), ('R1u', _t_unsafe), ('ret', _t_ret), ('brace', _t_brace)]
+TRANSFORMERS = [('Rsort', _t_sort), ('R7', _t_r7), ('R1', _t_r1), ('R1u', _t_unsafe), ('ret', _t_ret), ('brace', _t_brace)]
 
 
 def infer_transform(pinned_line, ann_line):
@@ -213,6 +222,9 @@ def key(line):
     s = line.strip()
     if s == '{':
         return '<<brace>>'
+    ms = re.match(r'^ol_sort\(&mut (\w+)\);$', s)
+    if ms:
+        return '%s.sort();' % ms.group(1)
     m = R7_OUT.match(s)
     if m:
         return 'for %s in [%s]' % (m.group(1), re.sub(r'\s+', ' ', m.group(2)))
@@ -484,7 +496,7 @@ def apply_overlay(repo_src_dir, out_src_dir, units, canary=False, only_files=Non
             try:
                 s, e = rustscan.find_item(src, u.name, u.kind, u.container, u.nth)
             except rustscan.ScanError as ex:
-                raise Undecided("unit %s: %s" % (u.id, ex))
+                raise Undecided("unit %s: %s" % (u.id, ex), unit=u.id)
             cur = src[s:e]
             script = Script(u.pinned.split('\n'), u.ann.split('\n'))
             if cur == u.pinned:
@@ -494,7 +506,7 @@ def apply_overlay(repo_src_dir, out_src_dir, units, canary=False, only_files=Non
                 try:
                     new = '\n'.join(script.replay_on(cur.split('\n')))
                 except Undecided as ex:
-                    raise Undecided("unit %s: %s" % (u.id, ex))
+                    raise Undecided("unit %s: %s" % (u.id, ex), unit=u.id)
                 status = 'transplanted'
             text = 'verus! { // @unit %s\n' % u.id
             if u.meta.get('hoist'):
